@@ -27,7 +27,7 @@ ASSUMPTIONS = ["strict JSON (allow_nan=False) is asserted when replace_nan=True 
                "input-error results carry no solution and are outside the statement"]
 
 RUN_PROF = sc.make_prof(fams=["lin", "sinlin", "hashed", "script", "rosen", "big"], diag=0.6, zero_resid=0.15,
-                        maxfuns=[1, 2, 3, "npt", "npt+1", 10, 30, 60], reg=0.0)
+                        maxfuns=[1, 2, 3, "npt", "npt+1", 10, 30, 60], reg=0.0, nolog=0.05)
 
 
 @st.composite
